@@ -269,7 +269,10 @@ pub struct CrashCase {
 }
 
 fn crash_case_strategy(tier: Tier) -> BoxedStrategy<CrashCase> {
-    (case_strategy(tier), 0..ROUND_STEPS.len(), 1u8..=3)
+    // the five zone-writer steps lie inside the output write of one uid (the only window in which an output directory is
+    // incomplete): three times the weight of the others; first crossings are the likeliest to exist
+    let weighted: Vec<usize> = (0..ROUND_STEPS.len()).flat_map(|i| std::iter::repeat(i).take(if ROUND_STEPS[i].starts_with("zw.") { 3 } else { 1 })).collect();
+    (case_strategy(tier), prop::sample::select(weighted), prop_oneof![3 => Just(1u8), 2 => Just(2u8), 1 => Just(3u8)])
         .prop_map(|(mut base, si, nth)| {
             // the history proper: no restart, no round before the interrupted one is needed, but they are kept when generated;
             // the two closing rounds of the main exploration are replaced by the interrupted round
